@@ -388,6 +388,7 @@ def check_update(ctx, case, o, after):
             # entrance pupil at infinity, heights of 1e16 - no solve can be judged on such a lens
             ctx.count('pred: solves on a degenerate lens (marginal ray not finite or astronomically large) - skipped')
             return
+        plain, spm = None, None
         for s in sv:
             if not (launch_fixed or (o.surface_group.stop_index or 0) < s.surface_idx):
                 ctx.count('pred: solve in front of the stop with a lens-dependent launch - skipped')
@@ -396,6 +397,22 @@ def check_update(ctx, case, o, after):
             uin = float(ua[s.surface_idx - 1])
             if not math.isfinite(y) or abs(uin) < 1e-6:
                 continue     # slope ~ 0: no axial shift can change the height (outside the guard)
+            # the same with a marginal ray traced independently of paraxial.py (matrix specification of C04), where
+            # that specification applies (no decentred / tilted surface)
+            if plain is None:
+                try:
+                    from . import c04
+                    plain = all(float(np.ravel(q.geometry.cs.y)[0]) == 0.0 and float(np.ravel(q.geometry.cs.rx)[0]) == 0.0
+                                for q in o.surface_group.surfaces)
+                    spm = c04.spec_all(o).get('marginal') if plain else None
+                except Exception:  # noqa
+                    plain, spm = False, None
+            if plain and spm is not None and len(spm[0]) >= s.surface_idx:
+                yi = float(spm[0][s.surface_idx - 1])
+                if math.isfinite(yi) and abs(yi - s.height) > 1e-7 * max(1.0, abs(s.height)):
+                    ctx.fail('after update() the marginal ray (traced independently) has the requested height on the '
+                             'solved surface %d' % s.surface_idx, case, yi, s.height)
+                    return
             if abs(y - s.height) > 1e-7 * max(1.0, abs(s.height)):
                 ctx.fail('after update() the marginal ray has the requested height on the solved surface %d'
                          % s.surface_idx, case, y, s.height)
